@@ -11,10 +11,10 @@ for b in blocks:
     ok = "demo-with-mutant rc=1" in b and "demo-clean rc=0" in b and "stable_not_passing=0" in b
     if not ok:
         print("skip (not validated):", head); continue
-    sid = f"{p}-m{k}"
+    sid = f"{p}-m{int(k) + int(os.environ.get('ID_OFFSET', '0'))}"
     d = f"/verif/seeded/{sid}"
     os.makedirs(d, exist_ok=True)
-    src = f"/tmp/wt-{p}/_out"
+    src = os.environ.get("WTPREFIX", "/tmp/wt-") + f"{p}/_out"
     shutil.copy(f"{src}/mutant{k}.diff", f"{d}/patch.diff")
     shutil.copy(f"{src}/demo{k}.py", f"{d}/demo.py")
     shutil.copy(f"{src}/notes{k}.md", f"{d}/notes.md")
